@@ -48,6 +48,20 @@ def general_scenario(rng, i, tier, extra_prof=None):
                               'dur': GEN.Q('TimeInterval', GEN.sig(k1 * ref_['dt_si'], 12), 'sec'), 'value': rng.choice([0, 0.0])}]
         spec['coasting'] = True
         return spec
+    if m == 7 and rng.random() < 0.35 and not GEN.chain_numbers(spec)['self_locking']:
+        # a free chain standing still with the motor off and no load; then ANOTHER Solver object takes over and a load starts
+        # acting: acceleration = net torque / J from the first instant on (nothing holds a chain without self-locking)
+        spec['load'].update(A=0.0, B=0.0, C=0.0, S=0.0, W=0.0, step_t=None, step_A=0.0)
+        spec['load'].pop('P', None)
+        spec['load'].pop('units_cycle', None)
+        spec['ic'] = dict(spec['ic'], pos=GEN.Q('AngularPosition', 0.0, 'rad'), speed=GEN.Q('AngularSpeed', 0.0, 'rad/s'), pwm=0)
+        dt_ = spec['schedule'][0]['dt']
+        l2_ = dict(spec['load'], A=GEN.sig(0.5 * spec['_ref']['T_out'], 4))
+        spec['schedule'] = [{'op': 'run', 'dt': dt_, 'T': GEN.mulq(dt_, rng.randint(4, 12))}, {'op': 'swapsolver'}, {'op': 'setload', 'load': l2_},
+                            {'op': 'run', 'dt': dt_, 'T': GEN.mulq(dt_, rng.randint(6, 20))}]
+        spec['rules'] = []
+        spec['takeover'] = True
+        return spec
     if m in (0, 4, 5) or rng.random() < 0.2:
         GEN.add_const_rules(rng, spec)
     if m == 6:                      # early stop on the output position / speed / motor current
